@@ -54,6 +54,15 @@ Theorem good_shard_lists_accepted : forall shards, well_formed shards -> new_tem
 Proof. exact WindowProofs.new_temporal_complete. Qed.
 Print Assumptions good_shard_lists_accepted.
 
+(* the NotAfter that the integration helper NotAfterForLog picks for a log with a non-empty window
+   lies inside the window, so the log's server admits it and a client of that one shard routes it there *)
+Theorem not_after_for_log_admitted_and_routed : forall now iv,
+  nonempty iv ->
+  let t := not_after_for_log now iv in
+  inside t iv /\ ctfe_admits t iv = true /\ client_selects t iv = true.
+Proof. exact WindowProofs.not_after_for_log_admitted_routed. Qed.
+Print Assumptions not_after_for_log_admitted_and_routed.
+
 (* non-vacuity: a three-shard list with open ends is accepted and routes boundary instants *)
 Example shards_ok :
   let sh := [(None, Some 100); (Some 100, Some 200); (Some 200, None)] in
@@ -64,3 +73,8 @@ Example boundary_instants :
   ctfe_admits 100 (Some 100, Some 200) = true /\ ctfe_admits 200 (Some 100, Some 200) = false
   /\ ctfe_admits 99 (Some 100, Some 200) = false /\ ctfe_admits 199 (Some 100, Some 200) = true.
 Proof. vm_compute. repeat split. Qed.
+Example narrow_windows :
+  not_after_for_log 0 (Some 5000000000, Some 6000000000) = 5500000000
+  /\ not_after_for_log 0 (Some 7, Some 8) = 7 /\ not_after_for_log 0 (None, Some 3600000000001) = 1
+  /\ nonempty (Some 7, Some 8).
+Proof. vm_compute. repeat split. intros s l E1 E2; inversion E1; inversion E2; subst; reflexivity. Qed.
